@@ -432,6 +432,11 @@ func (h *hist) inbound() {
 		if r.Intn(2) == 0 {
 			fs = append(fs, fld{"553", "u" + strconv.Itoa(r.Intn(9))}, fld{"554", "p"})
 		}
+		if r.Intn(3) == 0 {
+			// ResetSeqNumFlag: the library carries the field but gives it no meaning — whatever the flag says, the
+			// numbering of what the session sends goes on (C05)
+			fs = append(fs, fld{"141", []string{"Y", "N"}[r.Intn(2)]})
+		}
 	case "0", "1":
 		if trID != "" {
 			fs = append(fs, fld{"112", trID})
